@@ -44,6 +44,10 @@ func NewRegexpStringSearcher(ctx context.Context, indexReader index.IndexReader,
 		if err != nil {
 			return nil, err
 		}
+		// a term matches only if the pattern matches it entirely: with the
+		// default leftmost-first semantics an earlier, shorter alternative
+		// (e.g. "a|ab" on "ab") would hide the match that spans the term
+		r.Longest()
 
 		return NewRegexpSearcher(ctx, indexReader, r, field, boost, options)
 	}
